@@ -339,16 +339,16 @@ def gen(chk, tier):
     if quick:
         ex2 = ex2[:36000]     # the fixed programs come first; bounds the run time whatever the random programs are
     else:
-        ex2 = ex2[:300000]    # same for the thorough tier (about 1000 cases/s end to end: the tier stays near ten minutes)
+        ex2 = ex2[:200000]    # same for the thorough tier (about 1000 cases/s end to end: the tier stays near ten minutes)
     streams.append(("exhaustive-2x2", ex2))
     # (c) one schedule per (reachable model state, thread) edge incl. the disabled steps, 3 threads x <= 2 calls
     pl = [[rand_prog(rng, 2), rand_prog(rng, 2), rand_prog(rng, 2)] for _ in range(9 if quick else 300)]
-    pl.append([["KP"], ["C"], ["Kn", "I"]])
+    pl.insert(0, [["KP"], ["C"], ["Kn", "I"]])   # the fixed program first: the thorough tier caps the stream
     ed = []
     for progs, (n, scheds) in zip(pl, enum_many(pl, "edges", 4000 if quick else 60000)):
         nst += n
         ed += ["c16 progs=%s sched=%s" % (prog_str(progs), s) for s in scheds]
-    streams.append(("state-edge-cover-3", ed))
+    streams.append(("state-edge-cover-3", ed if quick else ed[:30000]))   # thorough: capped (3-thread / forced-waiter cases run at 60-250 cases/s)
     # (d) random bursty schedules, 4-5 threads x 1-3 calls
     rd = []
     for _ in range(1500 if quick else 100000):
@@ -356,7 +356,7 @@ def gen(chk, tier):
         progs = [rand_prog(rng, 3) for _ in range(nt)]
         total = sum(len(p) for p in progs)
         rd.append(case_line(progs, random_schedule(rng, nt, rng.range(4, 7 * total))))
-    streams.append(("random-bursty-4-5", rd))
+    streams.append(("random-bursty-4-5", rd if quick else rd[:30000]))   # thorough: capped (3-thread / forced-waiter cases run at 60-250 cases/s)
     chk.cov["states"] = nst
     return streams + gen_wait_forced(chk, tier)
 
@@ -406,7 +406,7 @@ def gen_wait_forced(chk, tier):
     ex2 = []
     for progs, (_, scheds) in zip(pl, enum_many(pl, "all", 450 if quick else 200000)):
         ex2 += ["c16 progs=%s sched=%s" % (prog_str(progs), s) for s in scheds]
-    ex2 = ex2[:9000] if quick else ex2[:120000]
+    ex2 = ex2[:9000] if quick else ex2[:60000]
     streams.append(("exhaustive-2x2-wait", ex2))
     # (g) one schedule per (reachable model state, thread) edge, 3 threads
     pl = list(FIXED_WAIT_3)
@@ -419,7 +419,7 @@ def gen_wait_forced(chk, tier):
         ed += ["c16 progs=%s sched=%s" % (prog_str(progs), s) for s in scheds]
     if quick:
         ed = ed[:7000]
-    streams.append(("state-edge-cover-3-wait", ed))
+    streams.append(("state-edge-cover-3-wait", ed if quick else ed[:30000]))   # thorough: capped (3-thread / forced-waiter cases run at 60-250 cases/s)
     # (h) for every reachable model state and every thread parked before the held mutex there: the path to the state,
     #     then that thread FORCED (its goroutine goes into the real Lock()), then (1) the round-robin completion,
     #     (2) random continuations
@@ -434,7 +434,7 @@ def gen_wait_forced(chk, tier):
             for _ in range(1 if quick else 3):
                 tail = random_schedule(rng, len(progs), rng.range(2, 6 * total))
                 fo.append("c16 progs=%s sched=%s,%s" % (prog_str(progs), s, ",".join(map(str, tail))))
-    streams.append(("forced-lock-waiter", fo))
+    streams.append(("forced-lock-waiter", fo if quick else fo[:8000]))   # thorough: capped (3-thread / forced-waiter cases run at 60-250 cases/s)
     # (i) random bursty schedules with WaitUtil in the alphabet and forced items sprinkled in
     rd = []
     for _ in range(500 if quick else 50000):
@@ -443,7 +443,7 @@ def gen_wait_forced(chk, tier):
         total = sum(len(p) for p in progs)
         sched = [("f%d" % t) if rng.chance(1, 4) else str(t) for t in random_schedule(rng, nt, rng.range(4, 7 * total))]
         rd.append("c16 progs=%s sched=%s" % (prog_str(progs), ",".join(sched)))
-    streams.append(("random-bursty-wait-forced", rd))
+    streams.append(("random-bursty-wait-forced", rd if quick else rd[:8000]))   # thorough: capped (3-thread / forced-waiter cases run at 60-250 cases/s)
     return streams
 
 
